@@ -183,6 +183,13 @@ func init() {
 			var us []*Unit
 			for _, s := range runScenarios(tier, true) {
 				us = append(us, scenarioUnit(s, exploreOpts{bound: tierBound(tier, 1, 2), menu: menuTSME, cancelMS: -1}, oracleC03))
+				// quick tier: two deviations for the smallest programs and for the vectors with a deployment
+				// that takes time (what the detector's 30 ms window interacts with)
+				if tier != "thorough" && (s.Class == "single" || (s.Class == "chain2" && strings.Contains(s.Name, "~deploy") && strings.Count(s.Name, "=success") == 2)) {
+					s2 := *s
+					s2.Name = s.Name + "/bound2"
+					us = append(us, scenarioUnit(&s2, exploreOpts{bound: 2, menu: menuTSE, cancelMS: -1, maxExecs: 60000}, oracleC03, oracleC01))
+				}
 			}
 			return us
 		}})
